@@ -655,8 +655,12 @@ func (ft *FakeTarget) defaultHandle(c net.Conn, br *bufio.Reader, req *http.Requ
 		return false
 	}
 	// the default answer echoes what matters for behavioural snapshots (C06/C11)
+	payload := ft.Name
+	if sz, err := strconv.Atoi(req.Header.Get("X-Size")); err == nil && sz >= 0 {
+		payload = strings.Repeat("x", sz)
+	}
 	_, err := fmt.Fprintf(c, "HTTP/1.1 200 OK\r\nContent-Length: %d\r\nX-Target: %s\r\nX-Echo-Uri: %s\r\nX-Echo-Xff: %s\r\nX-Echo-Xfp: %s\r\nX-Echo-Len: %d\r\n\r\n%s",
-		len(ft.Name), ft.Name, req.RequestURI, strings.Join(req.Header.Values("X-Forwarded-For"), "|"), strings.Join(req.Header.Values("X-Forwarded-Proto"), "|"), len(body), headless(req.Method, ft.Name))
+		len(payload), ft.Name, req.RequestURI, strings.Join(req.Header.Values("X-Forwarded-For"), "|"), strings.Join(req.Header.Values("X-Forwarded-Proto"), "|"), len(body), headless(req.Method, payload))
 	if err != nil {
 		ft.end(rec, "writeerr")
 		return false
